@@ -183,7 +183,12 @@ impl<T: FloatT> VectorMath<T> for [T] {
     fn axpby(&mut self, a: T, x: &[T], b: T) -> &mut Self {
         assert_eq!(self.len(), x.len());
 
-        zip(&mut *self, x).for_each(|(y, x)| *y = a * (*x) + b * (*y));
+        if b == T::zero() {
+            // overwrite: 0*y would keep a stale non-finite y alive
+            zip(&mut *self, x).for_each(|(y, x)| *y = a * (*x));
+        } else {
+            zip(&mut *self, x).for_each(|(y, x)| *y = a * (*x) + b * (*y));
+        }
         self
     }
 
